@@ -850,6 +850,11 @@ pub mod aead_axioms {
 //@ret r
 //@endfn
 
+/// the sealed private token `data` is authentic for (protocol id, expiry) under `key`: it is what the AEAD produces, under that key and nonce, with
+/// version || protocol id || expiry as associated data, for some plaintext (uninterpreted for the callers in unit U19)
+pub open spec fn token_authentic(data: [u8; 1024], protocol_id: u64, expire_timestamp: u64, xnonce: [u8; 24], key: [u8; 32]) -> bool {
+    exists|p: Seq<u8>| data@ == #[trigger] xseal(p, xnonce, key, token_aad(protocol_id, expire_timestamp))
+}
 /// the sealed form of a private token: its serialization, zero padding up to 1008 bytes, sealed with the tag in the last 16
 pub open spec fn private_plain(t: PrivateConnectToken, pad: Seq<u8>) -> Seq<u8> { private_wire_then(t, pad) }
 
@@ -894,10 +899,8 @@ impl PrivateConnectToken {
 
 //@fn renetcode/src/token.rs PrivateConnectToken::decode
 //@ret r
+//@specfile contracts/shared/PrivateConnectToken.decode.spec
 //@spec
-        ensures
-            // C05: a private token comes out only if the AEAD opened the data under this key and nonce with version, protocol id and expiry as associated data
-            r is Ok ==> exists|p: Seq<u8>| buffer@ == #[trigger] xseal(p, *xnonce, *private_key, token_aad(protocol_id, expire_timestamp)),   // @C05,C17 private_decode.opens_only_what_was_sealed_for_this_protocol_and_expiry
             r matches Ok(t) ==> private_ok(t),                                                                              // @C16 private_decode.decoded_token_is_one_the_format_carries
             // C16: opening is the inverse of sealing
             forall|t: PrivateConnectToken, pad: Seq<u8>| private_ok(t) && private_wire_then(t, pad).len() == 1008
